@@ -105,10 +105,14 @@ fn timeout_handler(data: TimerData) {
     // `arm_timer` of a later wait cannot slip in between.
     let mut cell = event_data.timer.borrow_mut();
     if cell.is_none() || cell.id != data.id {
+        #[cfg(may_verif)]
+        event_data.io_flag.mark("t.stale", 0, 0);
         return;
     }
     // remove the event timer
     cell.take();
+    #[cfg(may_verif)]
+    event_data.io_flag.mark("t.own", 0, 0);
 
     // `subscribe` arms the timer before it publishes the coroutine: if the timer fires in between, the `take` below finds
     // nothing and the time-out would be lost (the operation then blocks for ever). Raise the flag first – the same
@@ -216,6 +220,8 @@ impl EventData {
     pub fn arm_timer<F: FnOnce(TimerData) -> TimerHandle>(&self, add: F) {
         let mut cell = self.timer.borrow_mut();
         cell.id = cell.id.wrapping_add(1);
+        #[cfg(may_verif)]
+        self.io_flag.mark("t.armed", cell.id as u64, 0);
         let data = TimerData {
             event_data: self as *const _ as *mut _,
             id: cell.id,
@@ -234,12 +240,17 @@ impl EventData {
         // it's safe to remove the timer since we are running the timer_list in the same thread
         #[cfg(feature = "io_timeout")]
         self.timer.borrow_mut().take().map(|h| {
-            #[cfg(may_verif)]
-            self.io_flag.mark("t.disarm", 0, 0);
             unsafe {
                 // tell the timer function not to cancel the io
                 // it's not always true that you can really remove the timer entry
                 h.with_mut_data(|value| value.data.event_data = std::ptr::null_mut());
+            }
+            // (1 = the entry still held its value when it was nulled: it can only pop as a no-op; 0 = the timer thread had popped it before)
+            #[cfg(may_verif)]
+            {
+                let mut live = 0u64;
+                unsafe { h.with_mut_data(|_| live = 1) };
+                self.io_flag.mark("t.disarm", 0, live);
             }
             h.remove()
         });
@@ -254,6 +265,13 @@ impl EventData {
         if let Some(h) = self.timer.borrow_mut().take() {
             unsafe {
                 h.with_mut_data(|value| value.data.event_data = std::ptr::null_mut());
+            }
+            // (1 = the entry still held its value when it was nulled: it can only pop as a no-op; 0 = the timer thread had popped it before)
+            #[cfg(may_verif)]
+            {
+                let mut live = 0u64;
+                unsafe { h.with_mut_data(|_| live = 1) };
+                self.io_flag.mark("t.disarm", 2, live);
             }
             h.remove();
         }
@@ -270,12 +288,17 @@ impl EventData {
         // it's safe to remove the timer since we are running the timer_list in the same thread
         #[cfg(feature = "io_timeout")]
         self.timer.borrow_mut().take().map(|h| {
-            #[cfg(may_verif)]
-            self.io_flag.mark("t.disarm", 0, 0);
             unsafe {
                 // tell the timer function not to cancel the io
                 // it's not always true that you can really remove the timer entry
                 h.with_mut_data(|value| value.data.event_data = std::ptr::null_mut());
+            }
+            // (1 = the entry still held its value when it was nulled: it can only pop as a no-op; 0 = the timer thread had popped it before)
+            #[cfg(may_verif)]
+            {
+                let mut live = 0u64;
+                unsafe { h.with_mut_data(|_| live = 1) };
+                self.io_flag.mark("t.disarm", 0, live);
             }
             h.remove()
         });
